@@ -239,6 +239,11 @@ const SEEDS: &[&str] = &[
     "x12345", ".orig x3000000", "a 0x123456", "#99999", "x-12345", "0xFFFFF add r0 r0 r0", ".stringz \"caf\u{e9}\\n\"",
     ".stringz \"\u{65e5}\u{672c}\\n\"", "s .stringz \"ok \u{1F44D} \\\"yes\\\"\"", ".stringz \"\u{e9}\\\\\"", ".fill ; x1234", ".fill;todo", ".blkw ; c",
     "a\0b", "\0", "add r0\0 r0 r0", "r0", "R7 R7", "#1", "x1", "\"s\"", ", , ,", ":::", "lab: :lab2",
+    // the second definition of a label whose first one sits on a line that emits nothing
+    "start .orig x3000\nstart lea r0 start\nhalt", "loop .break\nloop add r0 r0 #1", "a\n.break\na halt", "e .end\ne halt",
+    "z .orig x3000\n.break\nz .break\nz halt", "dup\ndup halt", "dup .fill x1\ndup .fill x2\ndup .fill x3",
+    // string literals ended by the end of the file, after other text
+    "halt\ns .stringz \"no end", "lea r0 s\ns .stringz \"caf\u{e9}", "add r0 r0 #1 \"", ".stringz \"a\\", "x .stringz \"\r",
 ];
 
 pub fn run(cfg: &Cfg, col: &mut Collector) {
